@@ -57,7 +57,9 @@ theorem pushDefaultK_raised : ∀ (b : B) (k : Nat), Raised ext (positions b) Pl
     unfold pushDefaultK
     refine Raised.ctx_own _ (.default k) subset_refl' (placeholder_default k) (fun msg h => .body h) ?_
     refine Raised.ite _ (NoCtx.raised _) ?_
-    refine Raised.bind (Raised.monoS ?_ (pushDefaultKAt_raised (.cons c m rest) _ k)) fun _ _ => Raised.of_ok _
+    refine Raised.ite _ (NoCtx.raised _) ?_
+    refine Raised.bind (Raised.monoS ?_ (pushDefaultKAt_raised (.cons c m rest) _ k)) fun _ _ =>
+      Raised.ite _ (NoCtx.raised _) (Raised.of_ok _)
     simp only [positions]; exact tail_sub'
 theorem pushDefaultKAll_raised : ∀ (fs : BL) (k : Nat), Raised ext (positionsL fs) Placeholder (pushDefaultKAll fs k)
   | .nil, k => by unfold pushDefaultKAll; exact Raised.of_ok _
